@@ -86,6 +86,9 @@ def gen_model(rnd, ctx, single=False):
                     r_ = rnd.random()
                     if r_ < 0.35:
                         d[1] = float(f"{d[1] + rnd.uniform(1e-8, 9e-7):.12g}")
+                    elif r_ < 0.45:
+                        # small magnitudes, whose text form carries a negative exponent (3.7e-05)
+                        d[1] = float(f"{rnd.uniform(1.0, 9.9):.3g}e-{rnd.choice([5, 6, 7, 9])}")
             ops[opn] = op
             nts[f'nt{i}'] = {'ops': [opn], 'over': {}}
             nodes[f'n{i}'] = f'nt{i}'
